@@ -35,15 +35,38 @@
 
    What is missing for it: a model of Go memory and of the accesses of the
    real code (every field and slice access, regexp, bytes.Buffer, math/rand,
-   the allocator); JavaScript generation and compilation enter here as
-   arbitrary functions ([jsgen], [compile]) wrapped in the access pattern
-   "reads the registry / writes only its own memory", which is assumed of
-   them, not proved; the scanner goroutine and its channel (private to each
+   the allocator); the scanner goroutine and its channel (private to each
    parse) are not modelled at all.  That part is OBSERVED: the harness
-   (go/cmd/soyverif/c09.go) is built with -race and runs the real code. *)
+   (go/cmd/soyverif/c09.go) is built with -race and runs the real code.
+
+   JavaScript generation and compilation are no longer arbitrary functions
+   with an assumed access pattern: JavaScript generation is the model
+   Model/JsGen.v ([gen_file]) as a thread (Model/ConcJs.v).
+   Everything [gen_file] mutates is its own record [jstate]; the derived,
+   access-logging copy of the generator (Generated/JsGenTrace.v, regenerated
+   from the text of Model/JsGen.v on every run) records one entry per look at
+   a tree node and per read / update of that record, and
+   [C09_jsgen_no_shared_writes] says that nothing else is ever logged;
+   a compilation is a private computation (any number of updates of the
+   registry it builds, in the thread's own location, then a result of any
+   type); Proofs/ConcCompileInst.v instantiates it with [compile] of
+   Model/Compile.v, which folds [registry_add] from the empty registry (that
+   file is built on every run but kept out of this property's imports, so
+   that the message-id tables Model/Compile.v depends on are not C09's tie).  That the Go code has no OTHER mutation is tied to
+   the source by (iii): the package-level variables, the writes to them, the
+   methods called on them and the writes through syntax-tree / registry /
+   bundle typed values in soyhtml, soyjs and template are enumerated from the
+   source on every run and must satisfy what the review concluded
+   ([C09_package_state_quiet]).
+
+   Generated inputs of this property (tablegen): Generated/PkgState.v by
+   90-pkgvars (marker pkg_state_generated in Generated/Tables.v),
+   Generated/JsGenTrace.v by 95-jsgen-trace (marker jsgen_trace_derived);
+   a failure of either generator is charged to this property. *)
 From Coq Require Import List Arith.
-From Soy Require Import Model.Bytes Model.Values Model.Outcome Model.Ast Model.Interp Model.Conc Model.ConcRender
-  Proofs.ConcProofs Proofs.PurityProofs Proofs.ConcRenderProofs.
+From Soy Require Import Model.Bytes Model.Values Model.Outcome Model.Ast Model.Interp Model.JsGen Generated.JsGenTrace
+  Model.Conc Model.ConcRender Model.ConcJs Generated.PkgState Model.ConcGlobals
+  Proofs.ConcProofs Proofs.PurityProofs Proofs.ConcRenderProofs Proofs.ConcJsProofs Proofs.ConcGlobalsProofs.
 Import ListNotations.
 Open Scope N_scope.
 
@@ -110,71 +133,138 @@ Theorem C09_render_trace :
 Proof. intros J rq s. split; [apply render_trace_reads | apply render_result_alone]. Qed.
 Print Assumptions C09_render_trace.
 
+(* ---------------- (i') JavaScript generation and compilation only write their own memory ---------------- *)
+
+(* for EVERY options (formatter, message bundle, map order), fuel and file: whatever the access-logging
+   generator logged is a look at a tree node or an access to the generator's own record; there is no
+   entry that is a write to shared memory *)
+Theorem C09_jsgen_no_shared_writes :
+  forall (o : jopts) (fuel : nat) (name : bstr) (body : list node) (t : list jacc),
+    snd (gen_file_traced o fuel name body) = Some t ->
+    Forall (fun a => jacc_shared_write a = false) t.
+Proof. exact jsgen_log_no_shared_write. Qed.
+Print Assumptions C09_jsgen_no_shared_writes.
+
+(* as threads: soyjs.Write of any file of the bundle (at object granularity, and access by access as
+   logged) and Bundle.Compile of any independent bundle keep the ownership discipline on ANY store,
+   and return [gen_file] of the model / the compilation's result *)
+Theorem C09_jsgen_compile_threads_disciplined :
+  forall (CR : Type) (i : nat) (s : store rloc sval),
+    (forall o fuel file,
+        disciplined rloc_eqb rowner i (cjsgen_prog CR i o fuel file) s
+        /\ solo_result rloc_eqb (cjsgen_prog CR i o fuel file) s = CRJs (js_on o fuel file (s LFiles))
+        /\ disciplined rloc_eqb rowner i (cjsgen_fine_prog CR i o fuel file) s)
+    /\ (forall c : ccompile CR,
+        disciplined rloc_eqb rowner i (ccompile_prog i c) s
+        /\ solo_result rloc_eqb (ccompile_prog i c) s = CRCompiled (cc_result c)).
+Proof.
+  intros CR i s. split.
+  - intros o fuel file. split; [apply cjsgen_disciplined|]. split; [apply cjsgen_result|apply cjsgen_fine_disciplined].
+  - intros c. split; [apply ccompile_disciplined|apply ccompile_result].
+Qed.
+Print Assumptions C09_jsgen_compile_threads_disciplined.
+
 (* ---------------- the combination ---------------- *)
 
 (* Any family of tasks over one store -- renders of any templates with any
-   data, JavaScript generation (any function of the registry), compilations
-   of independent bundles (any function; each writes only its own location)
-   -- under ANY schedule: no race at the model's abstract locations. *)
-Theorem C09_concurrent_race_free_partial :
-  forall (J : Type) (jsgen : registry -> N -> J) (compile : bstr -> registry)
-         (ts : list task) (s0 : store rloc sval) (sched : list nat),
-    ~ has_race (snd (run rloc_eqb sched (Build_config (task_progs J jsgen compile ts) s0))).
-Proof. exact concurrent_tasks_race_free. Qed.
-Print Assumptions C09_concurrent_race_free_partial.
+   data, JavaScript generation of any file with any options (Model/JsGen.v),
+   compilations of any independent bundles (private computations of any
+   length and result; Model/Compile.v is one: Proofs/ConcCompileInst.v) -- under ANY
+   schedule: no race at the model's abstract locations. *)
+Theorem C09_concurrent_race_free :
+  forall (CR : Type) (ts : list (ctask CR)) (s0 : store rloc sval) (sched : list nat),
+    ~ has_race (snd (run rloc_eqb sched (Build_config (ctask_progs ts) s0))).
+Proof. exact concurrent_ctasks_race_free. Qed.
+Print Assumptions C09_concurrent_race_free.
 
-(* ... registry, configuration, message bundle and caller's maps are unchanged,
-   and every task that has finished has the result of its solo run on the
-   initial store (a render: the same outcome, the same Write calls with the
-   same bytes, the same error position); it has finished once it was scheduled
-   as often as it has accesses. *)
-Theorem C09_concurrent_renders_partial :
-  forall (J : Type) (jsgen : registry -> N -> J) (compile : bstr -> registry)
-         (ts : list task) (s0 : store rloc sval) (sched : list nat) c tr,
-    run rloc_eqb sched (Build_config (task_progs J jsgen compile ts) s0) = (c, tr) ->
-    shared c LRegistry = s0 LRegistry /\ shared c LConfig = s0 LConfig
-    /\ shared c LMessages = s0 LMessages /\ shared c LHeap = s0 LHeap
+(* ... every shared location (registry, file trees, configuration, message
+   bundle, caller's maps) is unchanged, and every task that has finished has
+   the result of its solo run on the initial store (a render: the same outcome,
+   the same Write calls with the same bytes, the same error position; a
+   generation: the chunks of [gen_file]; a compilation: [compile]); it has
+   finished once it was scheduled as often as it has accesses. *)
+Theorem C09_concurrent_results :
+  forall (CR : Type) (ts : list (ctask CR)) (s0 : store rloc sval) (sched : list nat) c tr,
+    run rloc_eqb sched (Build_config (ctask_progs ts) s0) = (c, tr) ->
+    (forall l, rowner l = None -> shared c l = s0 l)
     /\ forall i t, nth_error ts i = Some t ->
-         (forall r, nth_error (threads c) i = Some (Done r) -> r = task_alone J jsgen compile i t s0)
-         /\ ((task_accesses t <= count_occ Nat.eq_dec sched i)%nat ->
-               nth_error (threads c) i = Some (Done (task_alone J jsgen compile i t s0)))
-         /\ proj i tr = firstn (count_occ Nat.eq_dec sched i) (solo_trace rloc_eqb (task_prog J jsgen compile i t) s0).
-Proof. exact concurrent_tasks_sequential. Qed.
-Print Assumptions C09_concurrent_renders_partial.
+         (forall r, nth_error (threads c) i = Some (Done r) -> r = ctask_alone t s0)
+         /\ ((length (solo_trace rloc_eqb (ctask_prog i t) s0) <= count_occ Nat.eq_dec sched i)%nat ->
+               nth_error (threads c) i = Some (Done (ctask_alone t s0)))
+         /\ proj i tr = firstn (count_occ Nat.eq_dec sched i) (solo_trace rloc_eqb (ctask_prog i t) s0).
+Proof. exact concurrent_ctasks_sequential. Qed.
+Print Assumptions C09_concurrent_results.
 
 (* spelled out for the bytes of a render over one compiled bundle *)
 Corollary C09_concurrent_render_bytes :
-  forall (J : Type) (jsgen : registry -> N -> J) (compile : bstr -> registry)
-         reg oblig msgs h (ts : list task) (sched : list nat) c tr i rq rr,
-    run rloc_eqb sched (Build_config (task_progs J jsgen compile ts) (bundle_store reg oblig msgs h)) = (c, tr) ->
-    nth_error ts i = Some (TRender rq) ->
-    nth_error (threads c) i = Some (Done (RRender J (Some rr))) ->
+  forall (CR : Type) reg fs oblig msgs h (ts : list (ctask CR)) (sched : list nat) c tr i rq rr,
+    run rloc_eqb sched (Build_config (ctask_progs ts) (bundle_store_files reg fs oblig msgs h)) = (c, tr) ->
+    nth_error ts i = Some (CRender rq) ->
+    nth_error (threads c) i = Some (Done (CRRender (Some rr))) ->
     render_on rq (SRegistry reg) (SConfig oblig) (SMessages msgs) (SHeap h) = Some rr
-    /\ shared c LRegistry = SRegistry reg /\ shared c LHeap = SHeap h.
+    /\ shared c LRegistry = SRegistry reg /\ shared c LFiles = SFiles fs /\ shared c LHeap = SHeap h.
 Proof.
-  intros J jsgen compile reg oblig msgs h ts sched c tr i rq rr Hrun Ht Hd.
-  destruct (concurrent_tasks_sequential J jsgen compile ts _ sched c tr Hrun) as (Hr & _ & _ & Hh & Hth).
+  intros CR reg fs oblig msgs h ts sched c tr i rq rr Hrun Ht Hd.
+  destruct (concurrent_ctasks_sequential CR ts _ sched c tr Hrun) as (Hsh & Hth).
   destruct (Hth i _ Ht) as (Hdone & _ & _). specialize (Hdone _ Hd). cbn in Hdone.
-  split; [|split; [exact Hr|exact Hh]].
+  split; [|split; [apply (Hsh LRegistry); reflexivity|split; [apply (Hsh LFiles); reflexivity|apply (Hsh LHeap); reflexivity]]].
   unfold render_alone in Hdone. cbn in Hdone. now inversion Hdone.
 Qed.
 Print Assumptions C09_concurrent_render_bytes.
 
-(* The granularity of the reads does not matter.  [render_prog] reads each
-   shared object once; the real renderer reads registry, maps and bundle
-   piecemeal.  ANY thread programs that, alone on the initial store, perform no
-   write and return the renders' results (however many reads they make, wherever
-   they place them) are race-free under every schedule and return those results. *)
-Theorem C09_any_read_placement_partial :
-  forall (J : Type) (ps : list (rprog J)) (rqs : list creq) (s0 : store rloc sval) (sched : list nat) c tr,
-    Forall2 (implements_render J s0) ps rqs ->
+(* The granularity and placement of the accesses does not matter.  The
+   threads above read each shared object once; the real code reads registry,
+   maps and bundle piecemeal.  ANY thread programs that, alone on the initial
+   store, keep the discipline and return the tasks' results (however many
+   reads they make, wherever they place them) are race-free under every
+   schedule and return those results. *)
+Theorem C09_any_access_placement :
+  forall (CR : Type) (ps : list (cprog CR)) (ts : list (ctask CR)) (s0 : store rloc sval) (sched : list nat) c tr,
+    length ps = length ts ->
+    (forall i p t, nth_error ps i = Some p -> nth_error ts i = Some t -> implements_task CR s0 i p t) ->
     run rloc_eqb sched (Build_config ps s0) = (c, tr) ->
     ~ has_race tr
-    /\ (forall l, shared c l = s0 l)
-    /\ forall i rq r, nth_error rqs i = Some rq -> nth_error (threads c) i = Some (Done r) ->
-         r = RRender J (render_alone rq s0).
-Proof. exact any_read_placement. Qed.
-Print Assumptions C09_any_read_placement_partial.
+    /\ (forall l, rowner l = None -> shared c l = s0 l)
+    /\ forall i t r, nth_error ts i = Some t -> nth_error (threads c) i = Some (Done r) -> r = ctask_alone t s0.
+Proof. exact any_access_placement. Qed.
+Print Assumptions C09_any_access_placement.
+
+(* ---------------- (iii) the package-level state of the source is quiet ---------------- *)
+
+(* Generated/PkgState.v lists, from the current Go sources: every package-level variable, every write
+   to one in a function body, every method called on one, every write through a syntax-tree / registry /
+   bundle typed value in soyhtml, soyjs, template.  By computation on those lists:
+   - every package-level variable is a regexp, replacer, logger, error, reflect.Type, flag, literal or a
+     table built by its initialiser -- the only variable of a kind that can hold mutable state is the
+     verification hook: there is no package-level pool, lock, Once, channel, lazily assigned variable;
+   - every write to a package-level variable is in an init function (commands excepted);
+   - every method called on one is a reviewed read-only / internally locked method;
+   - every write through a shared type is Registry.Add building the registry under compilation or a
+     capped append; the JavaScript generator has none, the renderer only the capped append. *)
+Theorem C09_package_state_quiet :
+  (forall d n k, In (d, n, k) pkg_vars -> kind_quiet k = true \/ In (d, n, k) reviewed_loud_vars)
+  /\ (forall w, In w pkg_var_writes -> write_in_init w = true)
+  /\ (forall m, In m pkg_var_methods -> method_reviewed m = true)
+  /\ (forall w, In w shared_type_writes -> shared_write_benign w = true)
+  /\ filter (in_pkg k_soyjs) shared_type_writes = []
+  /\ (forall w, In w (filter (in_pkg k_soyhtml) shared_type_writes) -> kind_of_write w = k_capped).
+Proof.
+  split; [exact package_vars_quiet|]. split; [exact package_writes_only_in_init|].
+  split; [exact package_methods_reviewed|]. split; [exact shared_type_writes_benign|].
+  split; [exact soyjs_never_writes_through_shared_types|exact soyhtml_writes_through_shared_types_only_capped].
+Qed.
+Print Assumptions C09_package_state_quiet.
+
+(* the predicates are not vacuous: they reject a pool, a write outside init, a cache's method, a write
+   through a node in the renderer *)
+Example C09_package_predicates_reject :
+  kind_quiet (b "pool") = false /\ kind_quiet (b "zero:int") = false /\ kind_quiet (b "sync") = false
+  /\ write_in_init (b "template", b "cache", b "template:(*Registry).Template", b "assign-element") = false
+  /\ method_reviewed (b "parse", b "lexers", b "parse:startLexer", b "Get") = false
+  /\ shared_write_benign (b "soyhtml", b "node.Directives", b "soyhtml:(*state).evalPrint", b "assign-through") = false
+  /\ shared_write_benign (b "soyjs", b "directives", b "soyjs:(*state).visitPrint", b "append-to") = false
+  /\ (1 < length pkg_vars /\ 0 < length pkg_var_writes /\ 0 < length pkg_var_methods /\ 0 < length shared_type_writes)%nat.
+Proof. vm_compute. repeat split; try reflexivity; repeat constructor. Qed.
 
 (* ---------------- what the theory rules out ---------------- *)
 
@@ -191,48 +281,72 @@ Proof. exact shared_set_races. Qed.
 
 (* ---------------- non-vacuity ---------------- *)
 
-(* One bundle ({template .t}{$x}{/template}, obligatory directive escapeUri),
-   one data map shared by two renders, a JavaScript generation and a
-   compilation, interleaved access by access: everything finishes, both renders
-   wrote "a+b", the compile thread left its registry in its own location. *)
+(* One bundle ({namespace ns}{template .t}{$x}{/template}, obligatory directive
+   escapeUri), one data map shared by two renders, two JavaScript generations
+   of its file (one at object granularity, one access by access) and a
+   compilation, interleaved access by access: everything
+   finishes, both renders wrote "a+b", both generations produced the same text,
+   the compile thread left its result in its own location. *)
 Definition ex_rq : creq :=
   {| cq_name := wit_name; cq_data := Some 7; cq_ij := None; cq_fuel := 10%nat; cq_calls := None; cq_bytes := None; cq_first_id := 100 |}.
-Definition ex_store : store rloc sval := bundle_store wit_reg [b "escapeUri"] None [(7, [(wit_x, VStr (b "a b"))])].
-Definition ex_tasks : list task := [TRender ex_rq; TJsGen 0; TRender ex_rq; TCompile (b "{namespace n}")].
-Definition ex_sched : list nat := [0; 2; 3; 0; 1; 2; 2; 0; 3; 9; 2; 0; 1]%nat.
-Definition ex_jsgen (r : registry) (f : N) : nat := length (r_templates r).
-Definition ex_compile (_ : bstr) : registry := empty_registry.
+Definition ex_file : jfile :=
+  {| jf_name := b "f.soy";
+     jf_body := [NNamespace 0 (b "ns") 0; NSoyDoc 0 [NSoyDocParam 0 wit_x false]; NTemplate 0 wit_name (NList 0 [NPrint 4 (NDataRef 5 wit_x []) []]) 0 false] |}.
+Definition ex_store : store rloc sval :=
+  bundle_store_files wit_reg [ex_file] [b "escapeUri"] None [(7, [(wit_x, VStr (b "a b"))])].
+Definition ex_opts : jopts := {| o_fmt := ES5; o_msgs := None; o_order := fun l => l |}.
+Definition ex_compile : ccompile nat := {| cc_steps := 2; cc_result := 1%nat |}.
+Definition ex_tasks : list (ctask nat) :=
+  [CRender ex_rq; CJsGen ex_opts 20 0; CRender ex_rq; CCompile ex_compile; CJsGenFine ex_opts 20 0].
+Definition ex_sched : list nat := [0; 2; 3; 0; 1; 2; 2; 0; 3; 9; 2; 0; 1; 1; 3; 3; 4; 3]%nat ++ repeat 4%nat 400.
+
+Definition ex_summary (p : cprog nat) : option (bool * bstr) :=
+  match p with
+  | Done (CRRender (Some rr)) => Some (is_ok (rr_outcome rr), concat_b (rr_writes rr))
+  | Done (CRJs (Some (Ok cs))) => Some (true, [N.of_nat (length cs)])
+  | Done (CRCompiled n) => Some (true, [N.of_nat n])
+  | _ => None
+  end.
 
 Example C09_nonvacuous :
-  let '(c, tr) := run rloc_eqb ex_sched (Build_config (task_progs nat ex_jsgen ex_compile ex_tasks) ex_store) in
-  map (fun p => match p with
-                | Done (RRender _ (Some rr)) => Some (is_ok (rr_outcome rr), concat_b (rr_writes rr))
-                | Done (RJs _ (Some n)) => Some (true, [N.of_nat n])
-                | Done (RCompiled _ (SRegistry _)) => Some (true, [])
-                | _ => None
-                end) (threads c)
-  = [Some (true, b "a+b"); Some (true, [1]); Some (true, b "a+b"); Some (true, [])]
-  /\ length tr = 11%nat
+  let '(c, tr) := run rloc_eqb ex_sched (Build_config (ctask_progs ex_tasks) ex_store) in
+  match map ex_summary (threads c) with
+  | [Some (true, r0); Some (true, [j1]); Some (true, r2); Some (true, [1]); Some (true, [j4])] =>
+      r0 = b "a+b" /\ r2 = b "a+b" /\ j1 = j4 /\ (0 < j1)
+  | _ => False
+  end
   /\ proj 2 tr = [Rd LRegistry; Rd LConfig; Rd LMessages; Rd LHeap]
-  /\ match shared c (LOwn 3) with SRegistry _ => True | _ => False end.
+  /\ proj 1 tr = [Rd LFiles; Rd LMessages; Wr (LOwn 1) SClobbered]
+  /\ Nat.ltb 10 (length (proj 4 tr)) = true
+  /\ match shared c (LOwn 3) with SClobbered => true | _ => false end = true.
 Proof. vm_compute. repeat split; reflexivity. Qed.
 
+(* the traced generator logs tree reads and own accesses on this file, and produces the text of gen_file *)
+Example C09_trace_nonvacuous :
+  match gen_file_traced ex_opts 20 (jf_name ex_file) (jf_body ex_file) with
+  | (Ok cs, Some t) =>
+      Ok cs = JsGen.gen_file ex_opts 20 (jf_name ex_file) (jf_body ex_file)
+      /\ (let '(r, o, w) := jacc_count t in Nat.leb 4 r && Nat.leb 10 o && Nat.leb 10 w = true)
+  | _ => False
+  end.
+Proof. vm_compute. split; reflexivity. Qed.
+
 (* a render that re-reads the caller's maps and the registry between its steps implements the same render *)
-Definition ex_piecemeal : rprog nat :=
+Definition ex_piecemeal : cprog nat :=
   Read LHeap (fun _ => Read LRegistry (fun vr => Read LHeap (fun _ => Read LConfig (fun vc => Read LRegistry (fun _ =>
-  Read LMessages (fun vm => Read LHeap (fun vh => Done (RRender nat (render_on ex_rq vr vc vm vh))))))))).
+  Read LMessages (fun vm => Read LHeap (fun vh => Done (CRRender (render_on ex_rq vr vc vm vh))))))))).
 Example C09_piecemeal_nonvacuous :
-  Forall2 (implements_render nat ex_store) [ex_piecemeal; render_prog nat ex_rq] [ex_rq; ex_rq].
+  implements_task nat ex_store 0 ex_piecemeal (CRender ex_rq) /\ implements_task nat ex_store 1 (ctask_prog 1 (CRender ex_rq)) (CRender ex_rq).
 Proof.
-  constructor; [|constructor; [apply render_prog_implements|constructor]].
-  split; [unfold write_free; vm_compute; repeat constructor | vm_compute; reflexivity].
+  split; [|apply ctask_prog_implements].
+  split; [unfold disciplined; vm_compute; repeat constructor | vm_compute; reflexivity].
 Qed.
 
 (* the hypotheses of the general theorems are satisfiable with private locations in play *)
 Example C09_discipline_nonvacuous :
-  all_disciplined rloc_eqb rowner (task_progs nat ex_jsgen ex_compile ex_tasks) ex_store
-  /\ ~ write_free rloc_eqb (compile_prog nat ex_compile 3 []) ex_store.
+  all_disciplined rloc_eqb rowner (ctask_progs ex_tasks) ex_store
+  /\ ~ write_free rloc_eqb (ccompile_prog 3 ex_compile) ex_store.
 Proof.
-  split; [apply tasks_disciplined|].
-  unfold write_free, solo_trace. rewrite compile_exec. intros H. inversion H as [|? ? Hw _]. discriminate.
+  split; [apply ctasks_disciplined|].
+  unfold write_free. vm_compute. intros H. inversion H as [|? ? Hw _]. discriminate.
 Qed.
